@@ -79,4 +79,6 @@ def run(ck):
     if corr and not [v for v in ck.violations if v[1].get("class") != K1]:
         last["broken"] = "correspondence dec/ver model vs implementation"
         ck.violation("correspondence model/implementation no longer checks on %d inputs, no property violation found" % corr, last, found_input=False)
+    if ck.tier == "thorough":
+        production_scale(ck)     # 40 MiB and > 4 GiB with the production constants (props/filegen.py)
     return finish_proof(ck, rule="every file goes through BOTH entry points with the same key: valid files, the same files under a one-bit-different key, every mutation class of C05, the malformed stream of C11, authentic files built outside the program (arbitrary body incl. empty / ragged / any pad byte, tag computed with python hmac, also decrypted with another thread count); verify runs with an output stream that records any write; input bytes compared before/after each operation. distinct = distinct (class, length, first 12 bytes)")
